@@ -160,7 +160,7 @@ def _dist(cases):
              holds=fw.histogram(col("holds")), director_steps=fw.histogram(col("director_steps")),
              hang_reruns=fw.histogram(col("hang_reruns")), late_reruns=fw.histogram(col("late_reruns")),
              forced_deferred=fw.histogram(col("forced_deferred")), racing_starts=fw.histogram(col("racing_starts")),
-             start_ok=fw.histogram(col("start_ok")))
+             start_ok=fw.histogram(col("start_ok")), start_ctx_cancelled=fw.histogram(col("start_ctx_cancelled")))
     for k in ("final_stage", "gate_level", "gate_fail", "gate_mask", "tol_family", "failing_seqs", "cont_fail_run",
               "cont_where", "conc_vs_seqs", "failing_action_pos"):
         v = col(k)
@@ -384,6 +384,8 @@ def _replay(ctx, header, mons, release_obligation):
             args += ["-deferred", str(opts["DeferredP"])]
         if opts.get("RaceStart"):
             args += ["-racestart", str(opts["RaceStart"])]
+        if "CancelCtxP" in opts:  # the harness default is 0.5: always pass what the recorded run used (incl. 0)
+            args += ["-cancelctx", str(opts["CancelCtxP"])]
         if inp.get("poll"):
             args += ["-poll"]
         fresh = _harness(ctx, prof, 1, "replay.jsonl", args, seed=seed) or []
